@@ -272,26 +272,33 @@ func runC15(t *testing.T, s *kit.Session, c c15Case) *kit.Failure {
 	localChainBefore, _ := kit.WalkChain(local, kit.RSLRef)
 	remoteChainBefore, _ := kit.WalkChain(remote, kit.RSLRef)
 	localRefsBefore, remoteRefsBefore := allRefs(local), allRefs(remote)
-	nShared := len(c.Shared)
+	// the common prefix of the two logs: at least the shared entries, and more
+	// when both sides happened to record byte-identical entries next (test
+	// repositories use a fixed clock, so equal entries have equal ids)
+	nShared := 0
+	for nShared < len(localChainBefore) && nShared < len(remoteChainBefore) && localChainBefore[nShared].ID == remoteChainBefore[nShared].ID {
+		nShared++
+	}
+	localSuffix, remoteSuffix := localChainBefore[nShared:], remoteChainBefore[nShared:]
 
 	// which refs did each side's suffix update (by any reference-updating entry)?
-	touched := func(suffix []c15Entry) map[string]bool {
+	touched := func(suffix []*kit.RawEntry) map[string]bool {
 		m := map[string]bool{}
 		for _, e := range suffix {
-			if e.Kind == "ref" || e.Kind == "prop" || e.Kind == "reref" {
+			if e.Kind == "reference" || e.Kind == "propagation" {
 				m[e.Ref] = true
 			}
 		}
 		return m
 	}
-	lt, rt2 := touched(c.Local), touched(c.Remote)
+	lt, rt2 := touched(localSuffix), touched(remoteSuffix)
 	conflict := false
 	for r := range lt {
 		if rt2[r] {
 			conflict = true
 		}
 	}
-	diverged := len(c.Local) > 0 && len(c.Remote) > 0
+	diverged := len(localSuffix) > 0 && len(remoteSuffix) > 0
 	repo := gittuf.VerifWrap(local.Repository)
 	rsl.VerifResetCache()
 	fail := func(cause, f string, a ...any) *kit.Failure {
@@ -376,7 +383,7 @@ func runC15(t *testing.T, s *kit.Session, c c15Case) *kit.Failure {
 			if !kit.IsPrefix(kit.ChainIDs(remoteChainBefore), kit.ChainIDs(localChain)) {
 				return fail("not-extending-remote", "the reconciled local log does not extend the remote tip")
 			}
-		case len(c.Remote) > 0: // local strictly behind
+		case len(remoteSuffix) > 0: // local strictly behind
 			if opErr != nil {
 				return fail("reconcile-error", "local log behind remote but reconciliation failed: %v", opErr)
 			}
@@ -441,7 +448,7 @@ func runC15(t *testing.T, s *kit.Session, c c15Case) *kit.Failure {
 				}
 			}
 			// local-only entries are only published together with the references they name
-			if len(c.Local) > 0 && len(c.Remote) == 0 {
+			if len(localSuffix) > 0 && len(remoteSuffix) == 0 {
 				if remoteRefs[rsl.Ref] != localRefsBefore[rsl.Ref] {
 					return fail("log-not-published", "local log ahead of the remote but the remote log is not the local log after sync")
 				}
